@@ -2,7 +2,7 @@
    kind 0301: FS model vs the Linux kernel (random syscall sequences in a chroot jail).
    kind 0302: real fsutil.Receive fed by a hostile sender vs recv_fs (see below). *)
 From Coq Require Import List NArith Bool.
-From FS Require Import Sx Model.Path Model.Stat Model.Validator Model.Fs Model.DiskWriterFs Model.RecvFilter Model.RecvMeta Model.RecvSpec.
+From FS Require Import Sx Model.Path Model.Stat Model.Validator Model.Fs Model.DiskWriterFs Model.RecvMeta Model.RecvSpec.
 Import ListNotations.
 Open Scope N_scope.
 Open Scope bool_scope.
@@ -228,19 +228,18 @@ Definition dec_pred (x : sx) : option (option (stat -> bool)) :=
   end.
 
 (* ReceiveOpt.Filter: () = nil, ((path ...) uidadd gidadd): the filter answers false for the listed
-   paths and everything below them, and adds the two numbers to uid and gid of what it lets pass *)
-Definition below_any (ps : list bytes) (p : bytes) : bool :=
-  existsb (fun q => bytes_eqb q p || has_prefix (q ++ [sep]) p) ps.
+   paths and everything below them, and adds the two numbers to uid and gid of what it lets pass
+   ([subtree_filter]); with a fourth element: for the listed paths only ([exact_filter], replay of
+   the witness of receiver_contained_any_filter_refuted; never generated) *)
 Definition dec_filter (x : sx) : option (option rfilter) :=
   match x with
   | SL [] => Some None
   | SL [SL ps; SN ua; SN ga] =>
     l <- omap (fun y => match y with SB p => Some p | _ => None end) ps ;;
-    Some (Some {| f_rej := below_any l;
-                  f_map := fun s => {| st_path := st_path s; st_mode := st_mode s; st_uid := N.land (st_uid s + ua) 4294967295;
-                                       st_gid := N.land (st_gid s + ga) 4294967295; st_size := st_size s; st_mtime := st_mtime s;
-                                       st_linkname := st_linkname s; st_devmajor := st_devmajor s; st_devminor := st_devminor s;
-                                       st_xattrs := st_xattrs s |} |})
+    Some (Some (subtree_filter l ua ga))
+  | SL [SL ps; SN ua; SN ga; _] =>
+    l <- omap (fun y => match y with SB p => Some p | _ => None end) ps ;;
+    Some (Some (exact_filter l ua ga))
   | _ => None
   end.
 
@@ -257,7 +256,7 @@ Definition run_0302_opt (ops : list sx) (dest : bytes) (pks : list sx) (mg : N) 
       match resolve_ino ctx_init f0 dest true, resolve_ino ctx_init f0 dest false with
       | inl d0, inl dlno =>
         let dl := match get f0 dlno with Some {| i_kind := KLink _ |} => true | _ => false end in
-        let st := recv_fs_opt f0 1 d0 dl (negb (N.eqb mg 0)) mo flt [] packets in
+        let st := recv_fs_opt f0 1 d0 dl (negb (N.eqb mg 0)) mo (match flt with Some fl => fl | None => no_filter end) [] packets in
         (* A receive loop that dies in the closed-channel panic runs its deferred errgroup Done
            on the way down: Receive's g.Wait() returns nil and the epilogue of a metadata transfer
            races with the death of the process — dest/.fsutil-metadata is found untouched,
